@@ -278,6 +278,15 @@ func genRouteSpec(rng *PRNG, name string, secMode bool, paramMode bool) routeSpe
 			ss["jwt"] = map[string]any{"type": "http", "scheme": "bearer"}
 			rs.Schemes["jwt"] = schemeDef{Kind: "bearer"}
 		}
+		if secMode && rng.Chance(1, 3) {
+			// scheme kinds goag has no authenticator for (recorded finding KF-C11-unsupported): they may
+			// stand next to, and in front of, supported alternatives in a requirement list
+			if rng.Bool() {
+				ss["basic"] = map[string]any{"type": "http", "scheme": "basic"}
+			} else {
+				ss["aoauth"] = map[string]any{"type": "oauth2", "flows": map[string]any{"clientCredentials": map[string]any{"tokenUrl": "https://example.com/token", "scopes": map[string]any{"read": "r"}}}}
+			}
+		}
 		for k := range ss {
 			schemeNames = append(schemeNames, k)
 		}
@@ -382,6 +391,10 @@ func genRouteSpec(rng *PRNG, name string, secMode bool, paramMode bool) routeSpe
 	if rng.Chance(1, 4) {
 		rs.Gen.SpecHandler = "spec.yaml"
 		rs.SpecName = "spec.yaml"
+	} else if rng.Chance(1, 4) {
+		// a spec handler name with a directory part: served at <base>/docs/v1/spec.yaml
+		rs.Gen.SpecHandler = "docs/v1/spec.yaml"
+		rs.SpecName = "docs/v1/spec.yaml"
 	} else {
 		rs.SpecName = "openapi.json"
 	}
